@@ -342,7 +342,8 @@ where
         }
 
         let remaining_size = buffer_size + return_codes_buf.len();
-        let remaining_length = VariableByteInteger::from_u32(remaining_size as u32).unwrap();
+        let remaining_length = VariableByteInteger::from_len(remaining_size)
+            .map_err(|_| MqttError::MalformedPacket)?;
 
         let suback = GenericSuback {
             fixed_header: [FixedHeader::Suback as u8],
